@@ -54,6 +54,11 @@ Definition oracle_events (r : bnrule) (A B : geom) : list ev := events_with loc_
 Definition relate_oracle (r : bnrule) (A B : geom) : matrix := final (oracle_events r A B).
 Definition side_ok (r : bnrule) (A B : geom) : bool := side_ok_with loc_dim_fast r A B.
 
+(* matrix and certificate in one pass over the witnesses (OracleProofs.oracle_run_eq: = (relate_oracle, side_ok)) *)
+Definition oracle_run (r : bnrule) (A B : geom) : matrix * bool :=
+  let cs := map (fun w => (event_of loc_dim_fast r A B w, witness_counts loc_dim_fast r A B w)) (witnesses A B) in
+  (final (map fst (filter snd cs)), forallb snd cs).
+
 (* ---- scope: valid, and all polygons of the geometry taken together form a valid MultiPolygon (interiors disjoint, boundaries
    meeting in points only): then the component-wise loc_dim is the point set of the union of the elements ---- *)
 Definition in_scope (g : geom) : bool := valid_geom g && valid_geom (GMPoly (polys_of g)).
